@@ -42,10 +42,12 @@ class Replay:
         self.samples = []
         self.crashes = []     # (item, fail text)  -> C10
         self.mismatches = []  # (item, expected, observed)
+        self.last_batch = None
 
     def check(self, items, cfg=None, sequential=False, sanity=True, project=None):
         """items: list of (program, expected keyset, scenario meta). Runs them in one vh process."""
         res = proglib.run_vh(self.ctx, [it[0] for it in items], cfg=cfg, sequential=sequential, sanity=sanity)
+        self.last_batch = (items, cfg, sequential, sanity, project)
         for prog, exp, meta in items:
             r = res[prog["id"]]
             self.run += 1
@@ -108,6 +110,30 @@ class Replay:
                            "cats": sorted(self.cats or []), "cfg": cfg, "scenario": meta})
             reported += 1
         if nonrepro and not reported:
+            # In-context reproduction: every program is fine in a process of its own.  Analyse the whole batch (all programs
+            # concurrently in one process, each under its own module path) twice more: if programs get wrong diagnostics again
+            # both times, the result of an analysis depends on what else is analysed in the same process.
+            again = []
+            if self.last_batch:
+                items, bcfg, seq, san, proj = self.last_batch
+                for _rep in range(2):
+                    res = proglib.run_vh(ctx, [it[0] for it in items], cfg=bcfg, sequential=seq, sanity=san)
+                    bad = []
+                    for prog, exp, meta in items:
+                        r = res[prog["id"]]
+                        if r.get("err"):
+                            continue
+                        g = None if r.get("fail") else (proj(r["diags"]) if proj else proglib.keyset(r["diags"], cats=self.cats))
+                        if g != exp:
+                            bad.append(prog["id"])
+                    again.append(bad)
+            if len(again) == 2 and all(again):
+                ctx.violation("%d programs analysed concurrently in one process: %d, then %d and %d of them get other diagnostics than the same "
+                              "programs analysed alone (which is what the specification expects), e.g. %s: the result of an analysis depends on what "
+                              "else is analysed in the process" % (len(self.last_batch[0]), len(nonrepro), len(again[0]), len(again[1]), nonrepro[0][:400]),
+                              {"kind": "batch_context", "programs": len(self.last_batch[0]), "mismatching": [again[0][:20], again[1][:20]],
+                               "first": nonrepro[:5]})
+                return 1
             raise vlib.ToolError("%d mismatches did not reproduce alone, e.g. %s" % (len(nonrepro), nonrepro[0][:600]))
         return reported
 
@@ -115,6 +141,9 @@ class Replay:
 def replay_file(ctx, path, project=None):
     """bin/check <ID> --replay <file> for program-kind replays."""
     obj = json.load(open(path))
+    if obj.get("kind") == "batch_context":
+        print("re-run ./bin/check %s (the replay file documents a mismatch that needs the whole batch of programs in one process)" % ctx.pid)
+        return 2
     prog = obj["program"]
     cfg = obj.get("cfg")
     r = proglib.run_vh(ctx, [prog], cfg=cfg)[prog["id"]]
